@@ -80,7 +80,7 @@ theorem dget_dset {β : Type} (d : List (α × β)) (k k' : α) (v : β) :
         · rw [if_neg h] at ih ⊢
           unfold dget at ih ⊢
           by_cases hak' : a = k'
-          · simp [List.find?_cons, hak']
+          · simp [hak']
           · simp only [List.find?_cons, hak', decide_false]
             simpa using ih
 
@@ -210,7 +210,9 @@ theorem sub_of_heldDominates {identity : Ava α} {p : α × Val α} (h : heldDom
 
 /-! ### `_filter_values` -/
 
+omit [DecidableEq α] in
 theorem Val.values_list (l : List α) : (Val.list l).values = l := rfl
+omit [DecidableEq α] in
 theorem Val.values_scalar (s : α) : (Val.scalar s).values = [s] := rfl
 
 theorem filterValues_sub (cur : Val α) (vl : List α) (v : α) :
@@ -436,7 +438,7 @@ theorem foaLoop_required_available {S : StrOps α} {acs : List (Conv α)} {ava :
           simp only [hm, Bool.not_true, Bool.false_or, Bool.and_eq_true, Bool.not_eq_true',
             List.all_eq_true, decide_eq_false_iff_not] at this
           obtain ⟨hne, hnone⟩ := this
-          simp only [Bool.true_and, hne, Bool.not_false, Bool.and_eq_true, Bool.true_and] at hmust
+          simp only [Bool.true_and, hne, Bool.not_false] at hmust
           have hne' : (filterValues cur q.values).values.isEmpty = false := by
             cases hh : (filterValues cur q.values).values.isEmpty
             · rfl
@@ -777,7 +779,7 @@ theorem entityRestr_ok {c : Ctx α ρ} {required : List (ReqAttr α)} {l : List 
       | false => exact Or.inl ⟨by simp, by simp⟩
       | true =>
         cases hf : s.entCats.flatten with
-        | nil => exact Or.inl ⟨by simp [catStep], by simp⟩
+        | nil => exact Or.inl ⟨by simp, by simp⟩
         | cons e es =>
           refine Or.inr ⟨?_, e :: es, by simp, by simp⟩
           have := catFold_ne_nil (S := c.S) (ecs := c.spCats) (req := reqNames c.S c.acs required) (e :: es) []
